@@ -497,6 +497,13 @@ def In(x, c):
     raise TypeError("In on %s" % c.s)
 
 
+def mkset(so, *xs):
+    t = so.empty().t
+    for x in xs:
+        t = z3.Store(t, lift(x, so.elem).t, True)
+    return V(so, t)
+
+
 def If(c, a, b):
     c = lift(c)
     a = lift(a, b.s if isinstance(b, V) else None)
